@@ -833,7 +833,29 @@ func c18Reconnect(c *Ctx) {
 
 func runC19(c *Ctx) {
 	p := c.P
-	c.floor("C19.R1", 5)
+	c.floor("C19.R1", 6)
+	// the average is taken over active nodes, and the local node counts as one: NewState marks it active
+	if a := newClusterAnchors(c); a != nil {
+		if ns := p.Func(clPkg, "NewState"); ns != nil && len(ns.Params) > 0 {
+			c.analysed(fnName(ns))
+			local := ssa.Value(ns.Params[0])
+			isMark := func(i ssa.Instruction) bool {
+				st, ok := i.(*ssa.Store)
+				if !ok {
+					return false
+				}
+				b, ok := addrOfField(st.Addr, a.nStatus)
+				if !ok || strip(b) != local {
+					return false
+				}
+				s, ok := constString(st.Val)
+				return ok && s == a.statusConst["NodeStatusActive"]
+			}
+			c.check(everyPathEntry(ns, isMark, nil, true) == nil, "C19.R1", fnName(ns)+"/local-node-active", ns.Pos(), "the local node enters the table with Status = active", "the local node is not marked active when the routing table is created: it is left out of the average over active nodes (and of every status report)")
+		} else {
+			c.fail("C19.anchor", "cluster.NewState", token.NoPos, "not found")
+		}
+	}
 	fn := p.Func(upPkg, "Server.Rebalance")
 	if fn == nil {
 		c.fail("C19.anchor", "upstream.Server.Rebalance", token.NoPos, "not found")
